@@ -197,6 +197,13 @@ def run(ck):
                 ck.violate('C19.save', f'PandasStore.save:raises-{e.exc.tname}:{site}', f'{label}: raises {e.exc.tname}{e.exc.args} at `{site}`')
                 continue
             check_frame(ck, label, df, ps, table, wd, wa, inc, exc, agg)
+        # defaults: write_axes on, write_data off, no filters
+        try:
+            ps = it.instantiate(PS, [list(run0.context_results)], {}, None)
+            df = it.call(it.getattr(ps, 'save', None), [], {}, None)
+            check_frame(ck, f'{fe}: save() with default arguments', df, ps, table, False, True, None, None, False)
+        except AbsRaise as e:
+            ck.violate('C19.save', f'PandasStore.save:defaults-raise-{e.exc.tname}', f'{fe}: save() raises {e.exc}')
     ck.floor('C19.columns', 40)
     ck.floor('C19.regex', 3)
 
